@@ -46,7 +46,7 @@ CONSTANTS Sel,       \* the case indices this run explores
           Full,      \* FALSE: exhaustive, one projected access per step
                      \* TRUE : schedule generator over ALL gate points, in bursts
           Bursts,    \* Full only: burst lengths
-          Cap        \* exported candidate interleavings per TLC worker (at most)
+          Cap        \* exported candidate interleavings per case and TLC worker (at most)
 
 VARIABLES c,         \* case index
           mem,       \* location -> value
@@ -112,7 +112,7 @@ Spec == Init /\ [][Next]_vars
 (***************************************************************************)
 ModelOK == AllSeen /\ (AllDone => mem = DataCases[c].mem0)
 
-Budget == TLCGet(1) < Cap /\ TLCSet(1, TLCGet(1) + 1)
+Budget == TLCGet(c) < Cap /\ TLCSet(c, TLCGet(c) + 1)     \* one register per case (set to 0 by the MC module)
 PathOf(tr) == [i \in 1..(Len(tr) - 1) |->
                  CHOOSE t \in DOMAIN tr[i].pc : tr[i + 1].pc[t] # tr[i].pc[t]]
 
